@@ -532,10 +532,13 @@ def alias_substitution(prog: Program, rep: Report, rule: str):
                     sites[x] = None
                 if is_zip(x) and any(T.contains(a, lambda y: y == ("const", "__parameters__") or (y[0] == "attr" and y[2] == "__parameters__")) for a in x[2]):
                     zips[x] = None
-    if not sites:
+    has_lookup = any(x[0] == "sub" and T.is_call_to(x[1], "builtins.dict") and len(x[1][2]) == 1 and is_zip(x[1][2][0]) for p in ps for tm in p.all_terms() for x in T.walk(tm))
+    if not sites and not has_lookup:
         rep.held(rule, gh.qualname, gh.loc, "no member hint is re-subscripted with substituted arguments", detail="alias-substitution", nontrivial=False)
         return
     why = None
+    if not sites:
+        why = "the members of a parameterised user generic are looked up in the parameter->argument map, but no path re-subscribes a generic member any more (the branch is unreachable): `items: list[T]` of Stack[int] keeps its type variable"
     # a member that is a bare generic *class* (`raw: Box`) also has __parameters__, but it is not waiting for arguments: on the
     # path of every re-subscription the member is known not to be a class
     for p in ps:
@@ -562,12 +565,31 @@ def alias_substitution(prog: Program, rep: Report, rule: str):
                         atoms = T.derive_atoms(list(p.guards()) + conds)
                         if not any(val and a[0] == "cmp" and a[1] == "in" and a[2] == h and a[3] == x[1] for a, val in atoms):
                             why = "a member is looked up in the parameter->argument map without (or under the negation of) the test that it is one of the class's parameters: KeyError for every member that is not a bare type variable, while `item: T` is left un-substituted"
+    # ... and such a look-up exists at all (a member that *is* a type variable -- `item: T` -- is replaced, not only re-subscribed),
+    # and what is found is stored under the name of the very member it was computed from
+    n_direct = 0
+    for p in ps:
+        for e in p.events:
+            if e[0] != "setitem":
+                continue
+            uses = [x for x in T.walk(e[3]) if (x[0] == "sub" and is_map(x[1])) or x in sites]
+            if not uses:
+                continue
+            if any(x[0] == "sub" and is_map(x[1]) and e[3] == x for x in uses):
+                n_direct += 1
+            if not (e[2][0] == "key" and T.contains(e[3], lambda y: y == ("value", e[2][1]))):
+                why = f"a substituted hint is stored under {T.show(e[2])[:40]}, which is not the name of the member it was computed from (the members are not iterated as name/hint entries of one mapping): the hints of Box[int] are unusable or belong to other members"
+    if not n_direct and why is None:
+        why = "no member that is itself a type parameter is replaced by the alias's argument (only re-subscription remains): `item: T` of Box[int] stays `T`, which normalises to Any -- unmarshal(Box[int], {'item': '1'}) leaves the member unconverted"
     for x in sites:
         h, idx = x[1], x[2]
         c = _arg_builder(idx, is_zip)
         src = c[3][0][0]
         own = src == ("attr", h, "__parameters__") or (T.is_call_to(src, "builtins.getattr") and src[2][:2] == (h, ("const", "__parameters__")))
-        if not own:
+        as_tuple = (idx[0] == "call" and T.refname(idx[1]) == "builtins.tuple") or idx[0] == "tuple"
+        if not as_tuple:
+            why = f"a generic member is re-subscripted with {T.show(idx)[:50]}, which is no tuple: typing takes a list (or a generator) for *one* argument -- `list[T][[int]]` raises TypeError (Parameters to generic types must be types)"
+        elif not own:
             why = f"the new arguments of a generic member are enumerated from {T.show(src)[:60]}, not from the member's own __parameters__: for `inverse: dict[V, K]` in `Index[K, V]` the arguments arrive in the class's order and Index[str, int] gets inverse: dict[str, int]"
         elif c[4]:
             why = "the member's parameters are filtered while substituting: a parameter the alias does not bind is dropped and the subscription has the wrong arity"
